@@ -638,46 +638,60 @@ class BaseOrchestrator(ABC):
         :return: An iterator over the additional invocations to run.
         :rtype: Iterator["DistributedInvocation"]
         """
-        while missing_invocations > 0:
-            if invocation_id := self.app.broker.retrieve_invocation():
-                if invocation_id not in blocking_invocation_ids:
-                    invocation_status = self.get_invocation_status(invocation_id)
-                    if invocation_status.is_available_for_run():
-                        invocation = self.app.state_backend.get_invocation(
-                            invocation_id
-                        )
-                        if not self.is_candidate_to_run_by_concurrency_control(
-                            invocation
-                        ):
-                            if invocation.task.conf.reroute_on_concurrency_control:
+        # Blocked invocations whose status cannot be marked as concurrency controlled
+        # (e.g. awaiting a retry): they go back to the queue unchanged after the poll
+        invocations_to_requeue: list[InvocationId] = []
+        try:
+            while missing_invocations > 0:
+                if invocation_id := self.app.broker.retrieve_invocation():
+                    if invocation_id not in blocking_invocation_ids:
+                        invocation_status = self.get_invocation_status(invocation_id)
+                        if invocation_status.is_available_for_run():
+                            invocation = self.app.state_backend.get_invocation(
+                                invocation_id
+                            )
+                            if not self.is_candidate_to_run_by_concurrency_control(
+                                invocation
+                            ):
+                                try:
+                                    if invocation.task.conf.reroute_on_concurrency_control:
+                                        self.set_invocation_status(
+                                            invocation_id,
+                                            InvocationStatus.CONCURRENCY_CONTROLLED,
+                                            runner_ctx,
+                                        )
+                                        invocations_to_reroute.add(invocation_id)
+                                    else:
+                                        self.set_invocation_status(
+                                            invocation_id,
+                                            InvocationStatus.CONCURRENCY_CONTROLLED_FINAL,
+                                            runner_ctx,
+                                        )
+                                except InvocationStatusError as ex:
+                                    self.app.logger.warning(
+                                        f"invocation:{invocation_id} blocked by concurrency control "
+                                        f"stays queued in status:{invocation_status.value}: {ex}"
+                                    )
+                                    invocations_to_requeue.append(invocation_id)
+                                continue
+                            try:
                                 self.set_invocation_status(
                                     invocation_id,
-                                    InvocationStatus.CONCURRENCY_CONTROLLED,
+                                    InvocationStatus.PENDING,
                                     runner_ctx,
                                 )
-                                invocations_to_reroute.add(invocation_id)
-                            else:
-                                self.set_invocation_status(
-                                    invocation_id,
-                                    InvocationStatus.CONCURRENCY_CONTROLLED_FINAL,
-                                    runner_ctx,
+                                missing_invocations -= 1
+                                yield invocation
+                            except InvocationStatusError as ex:
+                                self.app.logger.warning(
+                                    f"Could not set invocation:{invocation_id} to status:pending: {ex}"
                                 )
-                            continue
-                        try:
-                            self.set_invocation_status(
-                                invocation_id,
-                                InvocationStatus.PENDING,
-                                runner_ctx,
-                            )
-                            missing_invocations -= 1
-                            yield invocation
-                        except InvocationStatusError as ex:
-                            self.app.logger.warning(
-                                f"Could not set invocation:{invocation_id} to status:pending: {ex}"
-                            )
-                            continue
-            else:
-                break
+                                continue
+                else:
+                    break
+        finally:
+            for invocation_id in invocations_to_requeue:
+                self.app.broker.route_invocation(invocation_id)
 
     def reroute_invocations(
         self,
